@@ -40,6 +40,7 @@ verus! {
         assert(jlist(v@) =~= list_entries(Fmt::Json, items@, items@.len() as int));
 //@   >>>
 //@   mutant list_element_skipped_on_error "v.push(self.convert_value(val)?);" => "match self.convert_value(val) { Ok(x) => { v.push(x); } Err(_) => { } }" expect convert_list
+//@   mutant list_built_in_reverse "v.push(self.convert_value(val)?);" => "v.push(self.convert_value(&items[items.len() - 1 - v.len()])?);" expect convert_list
 //@   mutant list_first_element_twice "v.push(self.convert_value(val)?);" => "v.push(self.convert_value(&items[0])?);" expect convert_list
 //@ end
 
